@@ -61,6 +61,7 @@ type Runner struct {
 	verifyOnIS     int                   // >0: when the next InstallSnapshot request goes out, call VerifyLeader on its sender that many ms (minus one) later
 	verifyAt       int64                 // virtual ms at which that call is due (0: none)
 	verifyOn       string                // the sender
+	busyDisk       [16]atomic.Int64      // per server: StoreLogs takes 5 ms until this instant (macro busydisk)
 	busyFSM        [16]atomic.Int64      // per server: its FSM takes >= 4 ms per call until this instant (macro snapcfg)
 	quietFlag      atomic.Bool           // mirror of quiet, readable without W.Mu (FSM goroutines)
 	slowISResp     int                   // id of the InstallSnapshot exchange whose response is delayed until slowISUntil
@@ -142,6 +143,12 @@ func (r *Runner) nodeOpts(i int) sim.NodeOpts {
 	}
 	return sim.NodeOpts{
 		ApplyDelayFn: slow,
+		StoreDelayFn: func() time.Duration {
+			if until := r.busyDisk[i].Load(); until > 0 && r.W.Now() < until && !r.quietFlag.Load() {
+				return 5 * time.Millisecond
+			}
+			return 0
+		},
 		LogOutput:    logw,
 		Batching:     p.Batching[i], ConfStore: p.ConfStore[i], Pipeline: p.Pipeline, HBFast: p.HBFast, NoPreVote: false, Notify: true,
 		Conf: func(c *raft.Config) {
